@@ -37,9 +37,9 @@ def main():
     try:
         demo_dst = os.path.join(scratch, pkg, "zz_seeded_demo_test.go")
         shutil.copy(demo, demo_dst)
-        rc0, out0 = sh("go test -vet=off %s -count=1 -run TestSeededDemo ./%s/" % (RACE, pkg), cwd=scratch, timeout=600)
+        rc0, out0 = sh("go test -vet=off %s -count=1 -run TestSeeded ./%s/" % (RACE, pkg), cwd=scratch, timeout=600)
         res["demo_passes_without_change"] = rc0 == 0
-        ran.append("go test -run TestSeededDemo ./%s/ (unchanged): rc=%d" % (pkg, rc0))
+        ran.append("go test -run TestSeeded ./%s/ (unchanged): rc=%d" % (pkg, rc0))
         os.unlink(demo_dst)
         rc, out = sh("git apply %s" % patch, cwd=scratch)
         res["patch_applies"] = rc == 0
@@ -50,9 +50,9 @@ def main():
             res["existing_tests_pass_with_change"] = rc1 == 0
             ran.append("go build ./... && go test ./... (with change): rc=%d" % rc1)
             shutil.copy(demo, demo_dst)
-            rc2, out2 = sh("go test -vet=off %s -count=1 -run TestSeededDemo ./%s/" % (RACE, pkg), cwd=scratch, timeout=600)
+            rc2, out2 = sh("go test -vet=off %s -count=1 -run TestSeeded ./%s/" % (RACE, pkg), cwd=scratch, timeout=600)
             res["demo_fails_with_change"] = rc2 != 0
-            ran.append("go test -run TestSeededDemo ./%s/ (with change): rc=%d" % (pkg, rc2))
+            ran.append("go test -run TestSeeded ./%s/ (with change): rc=%d" % (pkg, rc2))
             res["demo_output_tail"] = out2[-600:]
     finally:
         sh("git -C /repo worktree remove --force %s" % scratch)
